@@ -66,6 +66,10 @@ def gen_case(seed: int, prop: str, tier: str, fmt: str | None = None) -> dict:
         cops.append(["r", off, ln])
     case["cops"] = cops
     case["open"] = rng.choice(F.open_modes(cfg))
+    if rng.random() < 0.1 and cops:
+        # fault-injecting configuration: a transient I/O error is armed before some requests (k-th read call from then on, on any
+        # handle). The request may fail; repeated, it must return the right bytes (nothing wrong may have been remembered).
+        case["eio"] = {str(rng.randrange(len(cops))): rng.choice([1, 1, 2, 3, 5]) for _ in range(rng.choice([1, 2, 3]))}
     if rng.random() < 0.12 and nsectors * 512 <= (64 << 20):
         # a twin: another image with the same geometry and the same identity fields (ids, UUIDs, CIDs - a backup copy or an
         # earlier state of the same disk) but other content and another placement, opened and read first in the same process.
@@ -148,7 +152,19 @@ def run_case(case: dict) -> RunResult:
             viol = v("size", log.seq, f"size {stream.size} != stored {size}")
         if viol is None:
             sector = F.sector_size(case["cfg"])
-            for op in case["cops"]:
+            todo = []
+            for i, op in enumerate(case["cops"]):
+                k = (case.get("eio") or {}).get(str(i))
+                todo.append((op, k))
+                if k:
+                    todo.append((op, None))  # the same request again, without a fault
+            for op, arm in todo:
+                fired0 = world.faults_fired["eio_on_read"]
+                if arm:
+                    for _, h in world.handles:
+                        if not h.closed:
+                            h.eio_at = h.reads + arm
+                    log.add("injector", "arm-eio", arm, None)
                 try:
                     with metered(STEP_LIMIT, "loop", world.step_allowance(STEP_LIMIT, 2.0, img.meta_bytes + op[2] * 512)):
                         if op[0] == "r":
@@ -163,10 +179,15 @@ def run_case(case: dict) -> RunResult:
                     break
                 except Exception as e:
                     log.add("client", op[0], op[1:], "raised:" + type(e).__name__)
+                    if world.faults_fired["eio_on_read"] > fired0:
+                        world.probes["request_failed_on_injected_eio"] += 1
+                        continue
                     tb = traceback.extract_tb(e.__traceback__)[-1]
                     viol = v("raised:" + type(e).__name__, log.seq,
                              f"{op} raised {type(e).__name__}: {e} at {tb.filename.rsplit('/', 1)[-1]}:{tb.lineno}"[:300])
                     break
+                for _, h in world.handles:
+                    h.eio_at = None  # an armed fault that did not fire during its request is withdrawn
                 seq = log.add("client", op[0], op[1:], got)
                 want = view.expected(off, ln)
                 key = _state_key(case, view, off, ln, F)
